@@ -19,6 +19,7 @@ def binary_search_lightness(
     delta_e_threshold: float = 2.0,
     target_contrast: float = 7.0,
     large_text: bool = False,
+    _search_up: Optional[bool] = None,
 ) -> Optional[Tuple[int, int, int]]:
     """
     Search the Oklch lightness of a text color to find a candidate RGB that meets a contrast target while keeping perceptual change within a DeltaE threshold.
@@ -39,6 +40,8 @@ def binary_search_lightness(
         # Determine search direction based on background brightness
         bg_l, _, _ = rgb_to_oklch_safe(bg_rgb)
         search_up = bg_l < 0.5  # Lighten text on dark bg, darken on light bg
+        if _search_up is not None:
+            search_up = _search_up
 
         # Binary search bounds
         low = l if search_up else 0.0
@@ -94,6 +97,25 @@ def binary_search_lightness(
                     best_contrast = contrast
                     best_rgb = candidate_rgb
                     best_delta_e = delta_e
+
+        # The preferred direction moves text that is already on the far side of
+        # the background towards it; if that gained nothing, search the other way.
+        if _search_up is None:
+            current_contrast = calculate_contrast_ratio(text_rgb, bg_rgb)
+            if best_rgb is None or best_contrast <= current_contrast:
+                other_rgb = binary_search_lightness(
+                    text_rgb,
+                    bg_rgb,
+                    delta_e_threshold,
+                    target_contrast,
+                    large_text,
+                    _search_up=not search_up,
+                )
+                if (
+                    other_rgb is not None
+                    and calculate_contrast_ratio(other_rgb, bg_rgb) > current_contrast
+                ):
+                    return other_rgb
 
         return best_rgb
 
